@@ -4,6 +4,7 @@ CONSTANTS
   MaxDev = 2
   MaxFileMut = 2
   Sep = TRUE
+  FullExt = 1
   Wildcard = FALSE
 INVARIANT ReturnIffOk
 INVARIANT PrintedSigned
